@@ -55,10 +55,6 @@ Definition incl_b (a b : list path) : bool := forallb (fun x => existsb (path_eq
 
 Definition listing_of (a : archive) : list path := [s_config] :: map fst (a_files a).
 
-Definition only_sentinel := {| q_unnamed_sentinel := true; q_modre_anchored := false; q_cfg_goquote := false |}.
-Definition only_modre := {| q_unnamed_sentinel := false; q_modre_anchored := true; q_cfg_goquote := false |}.
-Definition only_cfg := {| q_unnamed_sentinel := false; q_modre_anchored := false; q_cfg_goquote := true |}.
-
 Definition bit (b : bool) (n : Z) : Z := if b then n else 0.
 
 (* code = sum of
